@@ -44,6 +44,11 @@ func (p *c12Prop) Parallel() bool { return true }
 
 var c12Cache sync.Map // case line -> Result (concurrent runs are executed by Gen)
 
+var c12Base = time.Now()
+
+// monotonic nanoseconds (invocation/response order of concurrent operations)
+func c12Mono() int64 { return int64(time.Since(c12Base)) }
+
 // ---------------------------------------------------------------- by-key reference + oracle
 
 type c12Key struct {
@@ -442,8 +447,8 @@ func c12ErrName(err error) string {
 
 func c12Exec(st storage.Storage, b storage.BucketName, k storage.ObjectKey, op *c12COp) {
 	ctx := context.Background()
-	op.start = time.Now().UnixNano()
-	defer func() { op.end = time.Now().UnixNano() }()
+	op.start = c12Mono()
+	defer func() { op.end = c12Mono() }()
 	switch op.kind {
 	case "app":
 		var opts *storage.AppendObjectOptions
@@ -458,7 +463,7 @@ func c12Exec(st storage.Storage, b storage.BucketName, k storage.ObjectKey, op *
 			if obj, err := st.HeadObject(ctx, b, k, nil); err == nil {
 				o = obj.Size
 			}
-			op.start = time.Now().UnixNano() // the append itself starts here
+			op.start = c12Mono() // the append itself starts here
 			op.off = o
 			opts = &storage.AppendObjectOptions{WriteOffset: &o}
 			op.usedOff = true
